@@ -301,13 +301,22 @@ def r7_server_builder_fields(ctx):
     builder_field_crossing(ctx, "C07.R7", r"^jsonrpsee_server::", 3)
 
 
+SIBLINGS = (("server", r"TowerServiceNoHttp<.*> as tower::Service<.*>>::call$"), ("ws::connect", r"^jsonrpsee_server::transport::ws::connect$"), ("http::call_with_service_builder", r"^jsonrpsee_server::transport::http::call_with_service_builder$"))
+
+
+def rsib_entry_points_agree(ctx):
+    """the high-level server and the low-level entry points feed the shared machinery from the same settings"""
+    from .common import sibling_config_agreement
+    sibling_config_agreement(ctx, "C07.SIB", SIBLINGS, 6)
+
+
 def rcfg_config_verbatim(ctx):
     """the configured `max_request_body_size` reaches the ServerConfig unchanged (setter stores its argument, build()/Clone copy it)"""
     from .common import config_field_integrity
     config_field_integrity(ctx, "C07.CFG", "max_request_body_size")
 
 
-RULES = [r1_ws_frame_limit, r2_http_limit, r3_plumbing, r4_limit_before_read, r5_ws_oversize_arm, r6_size_gates, r7_server_builder_fields, rcfg_config_verbatim]
+RULES = [r1_ws_frame_limit, r2_http_limit, r3_plumbing, r4_limit_before_read, r5_ws_oversize_arm, r6_size_gates, r7_server_builder_fields, rsib_entry_points_agree, rcfg_config_verbatim]
 
 LEVEL_TEXT = (
     "Structural necessary conditions decided exactly from the type-checked program: which configuration field every "
